@@ -100,20 +100,40 @@ def t_mirrors(m, s) -> list[str]:
     return why
 
 
-def t_cell(data, d, N, n):
-    """(ok, mirrors or None, reasons)"""
+def t_agrees(s, r) -> bool:
+    if s is None and r is None:
+        return True
+    if s is not None and r is not None:
+        m = r[1]
+        if s["deprecated"]:
+            return bool(m.get("stub"))
+        return (not m.get("stub")) and m["call"] == [s["name"], s["since"], s["domain"]]
+    if s is not None:
+        return bool(s["deprecated"])
+    return False
+
+
+def t_cell(data, d, N, n, listed=frozenset()):
+    """(ok, mirrors or None, reasons, stub or None, agrees)"""
     s = t_lookup(data, d, N, n)
     r = t_resolve(data, d, N, n)
     ungen = d in X.UNGENERATED_DOMAINS
+    ag = t_agrees(s, r)
     if s is None and r is None:
-        return True, None, []
+        return True, None, [], None, ag
     if s is not None and r is not None:
         why = t_mirrors(r[1], s)
-        return (s["deprecated"] or not why), (not why), why
+        stub = bool(r[1].get("stub"))
+        if s["deprecated"]:
+            ok = stub or ((d, N, n) in listed)
+            return ok, (not why), ([] if ok else [f"deprecated {n}({s['since']}) in force and a live method of {r[2]['name']} is inherited (not listed)"]), stub, ag
+        if stub:
+            return False, (not why), [f"{r[2]['name']}.{n} is a raising stub although {n}({s['since']}) is in force and not deprecated"], stub, ag
+        return (not why), (not why), why, stub, ag
     if s is not None:
         ok = s["deprecated"] or ungen
-        return ok, None, ([] if ok else [f"schema {s['name']}({s['since']}) in force, no method on the class"])
-    return False, None, [f"method {n} (defined in {r[2]['name']}) but no schema {n} in force at {N}"]
+        return ok, None, ([] if ok else [f"schema {s['name']}({s['since']}) in force, no method on the class"]), None, ag
+    return False, None, [f"method {n} (defined in {r[2]['name']}) but no schema {n} in force at {N}"], bool(r[1].get("stub")), ag
 
 
 def t_structural(data) -> list[str]:
@@ -520,6 +540,9 @@ NUMERIC_SPECS: list[tuple[str, Any, dict]] = [
     ("Scaler", lambda: [_x((2, 3))], {}),
     ("Normalizer", lambda: [_x((2, 3))], {}),
     ("ArrayFeatureExtractor", lambda: [_x((2, 3)), np.array([0, 2], dtype=np.int64)], {}),
+    ("Imputer", lambda: [_x((2, 3))], {"imputed_value_floats": (0.5,)}),
+    ("OneHotEncoder", lambda: [np.array([0, 2, 1], dtype=np.int64)], {"cats_int64s": (0, 1, 2)}),
+    ("FeatureVectorizer", lambda: [_x((2, 3))], {"inputdimensions": (3,)}),
 ]
 
 
@@ -672,9 +695,13 @@ def main(run: core.Run) -> None:
     # ---------------- twin on every cell
     twin = {}
     failing = []
+    listed = frozenset((d, v, n) for d, v, n in X.dep_live_cells(data["classes"], data["schemas"]))
+    stats["deprecated_live_listed"] = len(listed)
     for c, n in cells:
-        ok, mir, why = t_cell(data, c["domain"], c["version"], n)
-        twin[(c["name"], n)] = (ok, mir)
+        ok, mir, why, stub, ag = t_cell(data, c["domain"], c["version"], n, listed)
+        twin[(c["name"], n)] = (ok, mir, stub, ag)
+        if stub:
+            stats["cell_stub"] += 1
         s = t_lookup(data, c["domain"], c["version"], n)
         r = t_resolve(data, c["domain"], c["version"], n)
         kind = ("S" if s else "-") + ("M" if r else "-") + ("d" if s and s["deprecated"] else "")
@@ -698,8 +725,9 @@ def main(run: core.Run) -> None:
         lines = [f"cell {enc(c['domain'])} {c['version']} {enc(n)}" for c, n in cells]
         outs = drv.ask(lines)
         for (c, n), o in zip(cells, outs):
-            ok, mir = twin[(c["name"], n)]
-            exp = f"ok={'true' if ok else 'false'} mirrors={'-' if mir is None else ('true' if mir else 'false')}"
+            ok, mir, stub, ag = twin[(c["name"], n)]
+            b = lambda x: "-" if x is None else ("true" if x else "false")
+            exp = f"ok={b(ok)} mirrors={b(mir)} stub={b(stub)} agrees={b(ag)}"
             if o != exp:
                 tie_broken.append(f"twin vs Lean model on cell ({c['name']}, {n}): twin {exp}, model {o}")
         stats["twin_vs_model_cells"] = len(cells)
@@ -765,6 +793,12 @@ def main(run: core.Run) -> None:
         stats["dynamic_lookups"] += 3
         if not (k_item == k_true and k_ga == k_true and cont == (k_true is not None)):
             oracle_failures.append((c["name"], n, [f"dynamic lookup: opset[{n!r}] -> {k_item}, __getattr__ -> {k_ga}, `in` -> {cont}; get_schema({n!r}, {N}, {d!r}) -> {k_true}"]))
+        # what the converter builds for `opsetN.n(...)` / a bare name: values.Op(opset, n) without a schema argument
+        opx = real.values.Op(inst, n)
+        k_opx = None if opx.op_schema is None else (opx.op_schema.name, int(opx.op_schema.since_version), opx.op_schema.domain)
+        stats["converter_op_lookups"] += 1
+        if k_opx != k_true:
+            oracle_failures.append((c["name"], n, [f"values.Op({inst!r}, {n!r}).op_schema -> {k_opx}; get_schema({n!r}, {N}, {d!r}) -> {k_true}"]))
         if item is not None and (item.opset is not inst or item.name != n):
             oracle_failures.append((c["name"], n, [f"opset[{n!r}] built Op({item.opset!r}, {item.name!r})"]))
         m_l = t_lookup(data, d, N, n)
@@ -791,8 +825,18 @@ def main(run: core.Run) -> None:
         if sch is not None and sch.deprecated and inspect.isfunction(fn) and r is not None:
             args, kws = sentinel_calls(r[1], [])[0]
             rec = real.call_recorded(getattr(inst, n), args, kws)
-            if rec[0] != "ERR" and rec[0] != k_true:
+            if rec[0] == "ERR" and rec[1] == "NotImplementedError":
+                stats["deprecated_stub_raises"] += 1  # the class offers nothing callable: agrees with the deprecated schema
+                if not r[1].get("stub"):
+                    tie_broken.append(f"{c['name']}.{n} raises NotImplementedError but the parsed method is not a stub")
+            elif rec[0] != "ERR" and rec[0] != k_true:
                 known_dep.append((c["name"], n, f"eager {c['name']}.{n} binds {rec[0]}; translation uses opset[{n!r}] = {k_true} (deprecated)"))
+                if (d, N, n) not in listed:
+                    tie_broken.append(f"cell ({c['name']}, {n}) is deprecated-live on the real class but not in the model's list")
+            else:
+                oracle_failures.append((c["name"], n, [f"deprecated {n}: calling the method gives {rec[:3]}"]))
+        elif sch is not None and not sch.deprecated and r is not None and r[1].get("stub"):
+            oracle_failures.append((c["name"], n, [f"{c['name']}.{n} is a raising stub although {n}({sch.since_version}) is in force"]))
         # executed method vs the model's eagerNode, only where the method is the class's own (inherited ones are the same function)
         if r is not None and r[2]["name"] == c["name"] and inspect.isfunction(fn):
             s_m = t_lookup(data, d, N, n)
@@ -823,6 +867,144 @@ def main(run: core.Run) -> None:
                 tie_broken.append(f"executed {cn}.{n} [{ln}]: real `{exp}` vs model eagerNode `{o}`")
 
     lap("real code on every cell")
+    # ---------------- T9: HISTORIES of Opset(...) constructions and dynamic lookups in this one process
+    # (the real class-level Opset.cache and anything else the process remembers persist across histories: the answers
+    #  must still be the function of (domain, version, name) the model's state machine computes from an empty cache)
+    Opset = real.values.Opset
+
+    class UserOpset(Opset):  # a user-defined subclass shares Opset.cache, keyed by class
+        pass
+
+    HDOMS = ["", "ai.onnx.ml", "ai.onnx.preview", "ai.onnx.preview.training", "my.domain", "com.microsoft"]
+    names_of = {d: sorted({sc["name"] for sc in data["schemas"] if sc["domain"] == d}) for d in HDOMS}
+    firsts = {}
+    for sc in data["schemas"]:
+        firsts.setdefault((sc["domain"], sc["name"]), []).append(sc["since"])
+    late_ops = sorted((d, n, sorted(v)) for (d, n), v in firsts.items() if min(v) > 1 or len(v) > 1)
+    gen_classes = [(c["name"], c["domain"], c["version"]) for c in data["classes"] if c["name"] in insts]
+
+    def h_new_base(cls_obj, d, v):
+        return ("N", cls_obj, d, v)
+
+    def run_history(cmds):
+        """Returns (driver tokens, real responses, oracle problems)."""
+        toks, resps, probs = [], [], []
+        seen: dict[int, int] = {}
+        objs: list = []
+        want: list = []  # (d, v) requested at construction, per first-sight index
+        for cmd in cmds:
+            if cmd[0] == "N":
+                _, cls_obj, d, v = cmd
+                generated = cls_obj not in (Opset, UserOpset)
+                obj = cls_obj() if generated else cls_obj(d, v)
+                toks.append(f"N:{enc(cls_obj.__name__)}:{enc(d)}:{v}")
+                if id(obj) not in seen:
+                    seen[id(obj)] = len(objs)
+                    objs.append(obj)
+                    want.append((d, v))
+                k = seen[id(obj)]
+                resps.append(f"i{k}:{enc(obj.domain)}:{obj.version}")
+                if type(obj) is not cls_obj or (obj.domain, obj.version) != (d, v):
+                    probs.append(f"{cls_obj.__name__}({d!r}, {v}) returned {obj!r} of type {type(obj).__name__}")
+                stats["hist_new_" + ("generated" if generated else cls_obj.__name__)] += 1
+            else:
+                kind, k, n = cmd
+                if k >= len(objs):
+                    continue
+                obj = objs[k]
+                d, v = want[k]
+                truth = real.get_schema(n, v, d)
+                tk = None if truth is None else (truth.name, int(truth.since_version), truth.domain)
+                toks.append(f"{kind}:{k}:{enc(n)}")
+                if kind == "I":
+                    r0 = obj[n]
+                    got = None if r0 is None else (r0.op_schema.name, int(r0.op_schema.since_version), r0.op_schema.domain)
+                    resps.append("s-" if got is None else f"s{enc(got[0])},{got[1]},{enc(got[2])}")
+                    if got != tk:
+                        probs.append(f"{obj!r}[{n!r}] -> {got}, get_schema({n!r}, {v}, {d!r}) -> {tk}")
+                elif kind == "C":
+                    got = n in obj
+                    resps.append("bT" if got else "bF")
+                    if got != (tk is not None):
+                        probs.append(f"{n!r} in {obj!r} -> {got}, get_schema({n!r}, {v}, {d!r}) -> {tk}")
+                else:
+                    try:
+                        r0 = Opset.__getattr__(obj, n)
+                        got = (r0.op_schema.name, int(r0.op_schema.since_version), r0.op_schema.domain)
+                        resps.append(f"s{enc(got[0])},{got[1]},{enc(got[2])}")
+                    except AttributeError:
+                        got = None
+                        resps.append("E")
+                    if got != tk:
+                        probs.append(f"Opset.__getattr__({obj!r}, {n!r}) -> {got}, get_schema({n!r}, {v}, {d!r}) -> {tk}")
+                stats["hist_" + {"I": "getitem", "C": "contains", "A": "getattr"}[kind] + ("_hit" if tk else "_miss")] += 1
+                stats["hist_domain_" + (d or "default")] += 1
+        return toks, resps, probs
+
+    histories = []
+    # directed: probe an operator below its first version / across versions, in both orders, base and generated classes
+    for d, n, vs in late_ops:
+        lo, hi = max(1, vs[0] - 1), vs[-1]
+        a = [h_new_base(Opset, d, lo), ("C", 0, n), ("I", 0, n), ("A", 0, n), h_new_base(Opset, d, hi), ("C", 1, n), ("I", 1, n), ("A", 1, n),
+             ("C", 0, n), ("I", 0, n), h_new_base(Opset, d, lo), h_new_base(UserOpset, d, hi), ("I", 2, n)]
+        b = [h_new_base(Opset, d, hi), ("I", 0, n), h_new_base(Opset, d, lo), ("I", 1, n), ("C", 1, n), ("I", 0, n), ("C", 0, n), ("A", 0, n)]
+        histories += [a, b]
+        stats["hist_directed_old_then_new"] += 1
+        stats["hist_directed_new_then_old"] += 1
+    # directed: the same name across domains, and generated instance vs base instance of the same (domain, version)
+    for cn, d, v in gen_classes:
+        other = [x for x in HDOMS if x != d]
+        nm = run.rng.choice(names_of[d]) if names_of[d] else "Abs"
+        od = run.rng.choice(other)
+        histories.append([h_new_base(type(insts[cn]), d, v), h_new_base(Opset, od, v), ("C", 1, nm), ("I", 1, nm), ("C", 0, nm), ("I", 0, nm),
+                          h_new_base(Opset, d, v), ("I", 2, nm), ("A", 2, nm), h_new_base(type(insts[cn]), d, v), ("C", 1, nm)])
+        stats["hist_directed_cross_domain"] += 1
+    # random
+    n_hist = run.size(150, 1500)
+    for _ in range(n_hist):
+        L = run.rng.randint(4, 30)
+        cmds, ninst = [], 0
+        pool_d = run.rng.sample(HDOMS, run.rng.randint(1, 3))
+        pool_n = []
+        for d in pool_d + [run.rng.choice(HDOMS)]:
+            if names_of[d]:
+                pool_n += run.rng.sample(names_of[d], min(3, len(names_of[d])))
+        pool_n += ["NoSuchOp", "abs"]
+        for _ in range(L):
+            if ninst == 0 or run.rng.random() < 0.3:
+                r = run.rng.random()
+                if r < 0.25:
+                    cn, d, v = run.rng.choice(gen_classes)
+                    cmds.append(h_new_base(type(insts[cn]), d, v))
+                else:
+                    d = run.rng.choice(pool_d)
+                    v = run.rng.choice([1, 2, 3, 4, 5]) if d != "" and run.rng.random() < 0.7 else run.rng.randint(1, 27)
+                    cmds.append(h_new_base(UserOpset if r > 0.9 else Opset, d, v))
+                ninst += 1
+            else:
+                cmds.append((run.rng.choice("ICA"), run.rng.randrange(ninst), run.rng.choice(pool_n)))
+        histories.append(cmds)
+    hist_lines, hist_exp, hist_fail = [], [], []
+    for cmds in histories:
+        toks, resps, probs = run_history(cmds)
+        hist_lines.append("hist " + " ".join(toks))
+        hist_exp.append(" ".join(resps))
+        if probs and len(hist_fail) < 5:
+            hist_fail.append((toks, probs))
+    stats["histories"] = len(histories)
+    stats["history_commands"] = sum(len(h) for h in histories)
+    if hist_fail:
+        toks, probs = hist_fail[0]
+        oracle_failures.append(("Opset", "<history>", probs[:3] + ["history: " + " ".join(
+            (lambda t: t[0] + ":" + ":".join(dec(int(x)) if i in ((1, 2) if t[0] == "N" else (2,)) else x for i, x in enumerate(t[2:].split(":"), 1)))(t)
+            for t in toks)]))
+    if drv is not None:
+        outs = drv.ask(hist_lines)
+        for ln, e, o in zip(hist_lines, hist_exp, outs):
+            if e != o:
+                tie_broken.append(f"history [{ln[:300]}]: real `{e[:200]}` vs model `{o[:200]}`")
+                break
+    lap("lookup histories")
     # ---------------- T4: _prepare_inputs
     prep_lines, prep_exp = [], []
     inst0 = next(iter(insts.values()))
@@ -851,10 +1033,17 @@ def main(run: core.Run) -> None:
     numeric_failures = []
     n_numeric = 0
     spec_jobs = []
+    flagged = {(a["name"], b) for a, b, _ in failing} | {(a, b) for a, b, _ in oracle_failures}
     for (op, build, req) in NUMERIC_SPECS:
-        for c in data["classes"]:
-            if any(m["name"] == op for m in c["methods"]) and c["name"] in insts:
-                spec_jobs.append((c, op, build, req))
+        owners = [c for c in data["classes"] if any(m["name"] == op for m in c["methods"]) and c["name"] in insts]
+        if run.tier == "quick" and replay_only is None and len(owners) > 3:
+            # quick: first, last and one seeded version of the operator — plus every class the twin or the oracle flagged
+            mid = run.rng.choice(owners[1:-1])
+            keep = {owners[0]["name"], owners[-1]["name"], mid["name"]} | {cn for cn, n in flagged if n == op}
+            owners = [c for c in owners if c["name"] in keep]
+        for c in owners:
+            spec_jobs.append((c, op, build, req))
+    spec_jobs.sort(key=lambda j: (j[0]["name"], j[1]) not in flagged)
     # failing cells first, then every (class defining op) pair; quick and thorough are the same finite list
     for c, op, build, req in spec_jobs:
         if replay_only is not None and not (replay_only.get("cls") == c["name"] and replay_only.get("op") == op):
@@ -946,25 +1135,28 @@ def main(run: core.Run) -> None:
 
     ANN = {"float32": "FLOAT", "int64": "INT64", "bool": "BOOL", "uint8": "UINT8"}
     bodies, metas = [], []
-    tr_versions = [18, 23] if run.tier == "quick" else [13, 17, 18, 19, 20, 21, 22, 23]
+    tr_versions = [18] if run.tier == "quick" else [13, 17, 18, 19, 20, 21, 22, 23]
+    tr_ml = [3, 5] if run.tier == "quick" else [1, 2, 3, 4, 5]
+    tr_plan = [("", N, f"opset{N}") for N in tr_versions] + [("ai.onnx.ml", N, f"opset_ai_onnx_ml{N}") for N in tr_ml]
     for si, (op, build, req) in enumerate(NUMERIC_SPECS):
         inputs = build()
         if any(x is None for x in inputs) or any(str(x.dtype) not in ANN for x in inputs):
             continue
-        for N in tr_versions:
-            sch = real.get_schema(op, N, "")
-            if sch is None or sch.deprecated or len(sch.outputs) != 1 or ("", N) not in real.all_opsets:
+        for dom, N, oname in tr_plan:
+            sch = real.get_schema(op, N, dom)
+            if sch is None or sch.deprecated or len(sch.outputs) != 1 or (dom, N) not in real.all_opsets:
                 continue
             sig_s = ", ".join(f"i{j}: {ANN[str(x.dtype)]}[{','.join(map(str, x.shape))}]" if x.shape else f"i{j}: {ANN[str(x.dtype)]}" for j, x in enumerate(inputs))
             call = ", ".join([f"i{j}" for j in range(len(inputs))] + [f"{k}={list(v) if isinstance(v, tuple) else v!r}" for k, v in req.items()])
-            name = f"t{si}_{N}"
-            bodies.append((name, f"@script(default_opset=opset{N})\ndef {name}({sig_s}):\n    return opset{N}.{op}({call})\n"))
-            metas.append((name, op, N, inputs, req, sch))
-    fn, err, modname = scriptgen.compile_functions(bodies, header_extra="from onnxscript.onnx_opset import " + ", ".join(f"opset{N}" for N in tr_versions) + "\n")
+            name = f"t{si}_{oname}"
+            bodies.append((name, f"@script(default_opset={oname})\ndef {name}({sig_s}):\n    return {oname}.{op}({call})\n"))
+            metas.append((name, op, (dom, N), inputs, req, sch))
+    fn, err, modname = scriptgen.compile_functions(bodies, header_extra="from onnxscript.onnx_opset import " + ", ".join(o for _, _, o in tr_plan) + "\n")
     translation_failures = []
     import onnxruntime as _ort
 
-    for name, op, N, inputs, req, sch in metas:
+    for name, op, (dom, N), inputs, req, sch in metas:
+        cname = type(real.all_opsets[(dom, N)]).__name__
         if name in err:
             stats["translation_refused"] += 1
             continue
@@ -975,12 +1167,19 @@ def main(run: core.Run) -> None:
             continue
         nd = nodes[0]
         got_attrs = sorted(a.name for a in nd.attribute)
-        ver = {o.domain: o.version for o in mp.opset_import}.get("")
+        ver = {o.domain: o.version for o in mp.opset_import}.get(dom)
         stats["translation_nodes"] += 1
-        if got_attrs != sorted(req) or ver != N:
-            translation_failures.append((f"Opset{N}", op, f"translated node carries attributes {got_attrs} at opset {ver}; the call wrote {sorted(req)} with opset{N}"))
+        stats["translation_nodes_" + (dom or "default")] += 1
+        if got_attrs != sorted(req) or ver != N or nd.domain != dom:
+            translation_failures.append((cname, op, f"translated node {nd.domain!r}::{op} carries attributes {got_attrs} at opset {ver}; the call wrote {sorted(req)} with {cname} ({dom!r}, {N})"))
             continue
         try:
+            if dom != "" and all(x.domain == dom for x in mp.graph.node):
+                # the converter also imports the newest default-domain opset, which this onnxruntime refuses to load;
+                # no default-domain node is present, so the import is lowered for the run only
+                for o in mp.opset_import:
+                    if o.domain == "" and o.version > 21:
+                        o.version = 21
             so = _ort.SessionOptions()
             so.log_severity_level = 4
             so.graph_optimization_level = _ort.GraphOptimizationLevel.ORT_DISABLE_ALL
@@ -990,14 +1189,15 @@ def main(run: core.Run) -> None:
             stats["translation_not_runnable"] += 1
             continue
         try:
-            e = as_list(getattr(real.all_opsets[("", N)], op)(*inputs, **req))
+            e = as_list(getattr(real.all_opsets[(dom, N)], op)(*inputs, **req))
         except Exception as ex:
-            translation_failures.append((f"Opset{N}", op, f"translated model runs, eager call raises {type(ex).__name__}"))
+            translation_failures.append((cname, op, f"translated model runs, eager call raises {type(ex).__name__}"))
             continue
         if arrays_equal(e, g):
             stats["translation_equal"] += 1
+            stats["translation_equal_" + (dom or "default")] += 1
         else:
-            translation_failures.append((f"Opset{N}", op, f"eager {[np.asarray(x).reshape(-1)[:4].tolist() for x in e]} vs translated graph {[x.reshape(-1)[:4].tolist() for x in g]}"))
+            translation_failures.append((cname, op, f"eager {[np.asarray(x).reshape(-1)[:4].tolist() for x in e]} vs translated graph {[x.reshape(-1)[:4].tolist() for x in g]}"))
     scriptgen.release(modname)
     lap("translation vs eager")
     # ---------------- T6: the generator in /repo/opgen, run in-process, regenerates exactly these classes
@@ -1025,8 +1225,10 @@ def main(run: core.Run) -> None:
                 generator_stale.append("onnx_opset/__init__.py: exports differ from the generator output")
             data_regen = dict(data, classes=regen["classes"], exports=regen["exports"])
             cells_r, _ = all_cells(data_regen)
+            # the generator may emit stubs (fix C17-F1) or still leave the deprecated-live cells: both are its listed state
+            listed_regen = frozenset((d, v, n) for d, v, n in X.dep_live_cells(data_regen["classes"], data_regen["schemas"]))
             for c, n in cells_r:
-                ok, mir, why = t_cell(data_regen, c["domain"], c["version"], n)
+                ok, mir, why, _st, _ag = t_cell(data_regen, c["domain"], c["version"], n, listed_regen)
                 if not ok:
                     generator_failures.append((c["name"], n, why))
             for w in t_structural(data_regen):
@@ -1111,7 +1313,7 @@ def main(run: core.Run) -> None:
         stats["lean_failed_with_replay"] = 1
 
     for c, n in (cells[:: max(1, len(cells) // 6)])[:6]:
-        ok, mir = twin[(c["name"], n)]
+        ok, mir, _stub, _ag = twin[(c["name"], n)]
         run.sample({"cls": c["name"], "op": n, "cellOk": ok, "mirrors": mir})
     run.coverage.update(
         evaluations=len(cells) + stats["executed_method_calls"] + stats["dynamic_lookups"] + n_prep + stats["numeric_equal"] + stats["numeric_differ"],
@@ -1124,5 +1326,16 @@ def main(run: core.Run) -> None:
         explanation="the quantifier of the table theorems is the finite grid (33 classes x all operator names of the domain), enumerated "
         "completely in both tiers; names outside the grid are covered by the general theorem `cell_all`",
     )
-    if stats["numeric_equal"] + stats["numeric_differ"] < 100 and replay_only is None:
+    if replay_only is None:
+        required = ["hist_directed_old_then_new", "hist_directed_new_then_old", "hist_directed_cross_domain", "hist_getitem_hit",
+                    "hist_getitem_miss", "hist_contains_hit", "hist_contains_miss", "hist_getattr_hit", "hist_getattr_miss",
+                    "hist_new_generated", "hist_new_UserOpset", "hist_domain_ai.onnx.ml", "hist_domain_ai.onnx.preview",
+                    "hist_domain_my.domain", "executed_trim_yes", "executed_trim_no", "sep_ok_nofill", "sep_ok_fill",
+                    "sep_err_missingRequired", "sep_err_unexpectedKw", "sep_err_tooManyArgs", "translation_equal_default",
+                    "translation_equal_ai.onnx.ml", "prep_trimmed_0", "prep_trimmed_1", "prep_trimmed_3", "cell_SM", "cell_--"]
+        zero = [k for k in required if not stats[k]]
+        # a zero counter with a clean verdict means the generator degenerated; with a violation already printed it is a consequence
+        if zero and not run.violations:
+            raise core.Infra(f"coverage counters at zero: {zero}")
+    if stats["numeric_equal"] + stats["numeric_differ"] < 100 and replay_only is None and not run.violations:
         raise core.Infra(f"numeric stream degenerated: only {stats['numeric_equal']} comparable eager/bare pairs")
